@@ -7,6 +7,9 @@
 //!   temper  : `TemperingContainer::timesteps_sample` / `parallel_timesteps_sample` on logging mock replicas
 //!   ising   : the same helpers on real `QmcIsingGraph` samplers / containers against a clone stepped one
 //!             `timestep` at a time
+//!   generic : `timesteps` / `timesteps_sample` / `timesteps_measure` and both tempering drivers on real generic
+//!             `Qmc` samplers whose energy offset is non-zero (both signs; built with the `*_and_offset`
+//!             constructors and by `into_qmc`), against -<n>/beta + get_offset() from a manual `timestep` loop
 //!   itime   : `imaginary_time_fold` on real samplers (length, states, serde snapshot unchanged)
 //!   edge    : excluded inputs, run once each (f = 0, f > T, s = 0)
 //! The oracle column is the documented cadence / average computed here from the mock's call log (or from
@@ -826,6 +829,198 @@ fn mode_ising(a: &Args) {
 }
 
 // ------------------------------------------------------------------------------------------------
+// real generic samplers (`Qmc`) with a non-zero energy offset of either sign
+// ------------------------------------------------------------------------------------------------
+
+type Generic = DefaultQmc<SplitMix64>;
+
+/// A generic sampler on a chain: per edge a diagonal interaction `[c-j, c+j, c+j, c-j]` registered with
+/// `make_diagonal_interaction_and_offset` (or the full-matrix variant), so the recorded offset is
+/// `-Σ(c-|j|)`: negative for `c > |j|`, positive for `c < |j|`; plus a constant single-site term (no offset).
+/// `shift` moves every `c`, which changes the offset but not the stored (shifted) matrices.
+fn gen_generic(g: &mut SplitMix64, nvars: usize, shift: f64, seed: u64) -> (Generic, Vec<(f64, f64)>) {
+    let mut q = Generic::new_with_state(nvars, SplitMix64::new(seed), vec![false; nvars], false);
+    let mut spec = vec![];
+    for v in 0..nvars - 1 {
+        let j = *g.pick(&[-1.0, -0.5, 0.5, 1.0, 1.5]);
+        let c = g.dyadic(-3, 3, 4);
+        spec.push((j, c));
+        let (lo, hi) = (c + shift - j, c + shift + j);
+        if v % 2 == 0 {
+            q.make_diagonal_interaction_and_offset(vec![lo, hi, hi, lo], vec![v, v + 1]).unwrap();
+        } else {
+            let mut m = vec![0.0; 16];
+            for (i, d) in [lo, hi, hi, lo].iter().enumerate() {
+                m[5 * i] = *d;
+            }
+            q.make_interaction_and_offset(m, vec![v, v + 1]).unwrap();
+        }
+    }
+    let tr = g.range(1, 6) as f64 / 4.0;
+    for v in 0..nvars {
+        q.make_interaction(vec![tr, tr, tr, tr], vec![v]).unwrap();
+    }
+    (q, spec)
+}
+
+/// manual loop on a clone: n after every step, state after every step
+fn single_steps(q: &mut Generic, t: usize, beta: f64) -> (Vec<usize>, Vec<Vec<bool>>) {
+    let mut ns = vec![];
+    let mut states = vec![];
+    for _ in 0..t {
+        q.timestep(beta);
+        ns.push(q.get_n());
+        states.push(q.state_ref().to_vec());
+    }
+    (ns, states)
+}
+
+fn mode_generic(a: &Args) {
+    let mut g = SplitMix64::new(a.seed ^ 0x6e17);
+    let cases = if a.thorough { 240 } else { 36 };
+    let (mut npos, mut nneg) = (0, 0);
+    // (a) timesteps / timesteps_sample / timesteps_measure on a generic sampler with an offset
+    for ci in 0..cases {
+        let beta = *g.pick(&[0.5, 1.0, 2.0, 4.0]);
+        let t = g.range(1, 60) as usize;
+        let f = g.range(1, 9) as usize;
+        let mut q0: Generic = if ci % 3 == 2 {
+            // obtained by conversion from an Ising sampler (with and without a longitudinal field)
+            let nvars = g.range(2, 5) as usize;
+            let (edges, tr, cutoff) = gen_ising(&mut g, nvars);
+            let h = if ci % 2 == 0 { 0.0 } else { *g.pick(&[-0.75, 0.5, 1.25]) };
+            Ising::new_with_rng(edges, tr, h, cutoff, SplitMix64::new(g.next()), None).into_qmc()
+        } else {
+            let nvars = g.range(2, 5) as usize;
+            // force the sign of the offset in turn
+            let shift = if ci % 2 == 0 { 3.0 } else { -3.0 };
+            let seed = g.next();
+            gen_generic(&mut g, nvars, shift, seed).0
+        };
+        q0.timesteps(g.range(0, 15) as usize, beta);
+        let off = q0.get_offset();
+        if off > 0.0 {
+            npos += 1
+        } else if off < 0.0 {
+            nneg += 1
+        }
+        let (ns, states) = single_steps(&mut q0.clone(), t, beta);
+        let doc = |freq: usize| -> Option<f64> {
+            let k = t / freq;
+            if k == 0 {
+                None
+            } else {
+                let mean = (1..=k).map(|i| ns[i * freq - 1] as f64).sum::<f64>() / k as f64;
+                Some(-(mean / beta) + off)
+            }
+        };
+        for variant in ["steps", "sample", "measure"] {
+            let mut q = q0.clone();
+            let (freq, count, e, states_ok) = match variant {
+                "steps" => (1, t, q.timesteps(t, beta), true),
+                "sample" => {
+                    let (st, e) = q.timesteps_sample(t, beta, Some(f));
+                    let ok = st.len() == t / f && st.iter().enumerate().all(|(k, s)| *s == states[(k + 1) * f - 1]);
+                    (f, st.len(), e, ok)
+                }
+                _ => {
+                    let (c, e) = q.timesteps_measure(t, beta, 0usize, |c, _| c + 1, Some(f));
+                    (f, c, e, true)
+                }
+            };
+            let mut oracle = Ok(());
+            if !states_ok {
+                oracle = Err(format!("generic sampler ({}): sampled states are not those after steps f,2f,..", variant));
+            }
+            if let Some(d) = doc(freq) {
+                if !close(e, d) {
+                    oracle = Err(format!(
+                        "generic sampler ({}), offset {}: returned energy {} but -<n>/beta + get_offset() over the sampled steps is {}",
+                        variant, off, e, d
+                    ));
+                }
+            }
+            let input = format!("genericm {} {} {} {} {} {}", variant, t, freq, rat(beta), rat(off), list(&ns));
+            emit(t / freq >= 1 && off != 0.0, &input, &format!("{} {}", count, fl(e)), Some(oracle));
+        }
+    }
+    // (b) the tempering drivers over generic replicas whose offsets differ from slot to slot
+    let tcases = if a.thorough { 120 } else { 24 };
+    for ci in 0..tcases {
+        let nvars = g.range(2, 4) as usize;
+        let nrep = g.range(2, 4) as usize;
+        let t = g.range(1, 40) as usize;
+        let s = g.range(1, 7) as usize;
+        let f = g.range(1, 7) as usize;
+        let parallel = ci % 2 == 1;
+        let mut tc: TemperingContainer<SplitMix64, Generic> = TemperingContainer::new(SplitMix64::new(g.next()));
+        // same couplings in every replica (same generator state), different diagonal shift => different offset,
+        // identical stored matrices (so the graphs are swappable and `ham_eq` holds)
+        let gs = g.clone();
+        let mut betas = vec![];
+        for i in 0..nrep {
+            let mut gi = gs.clone();
+            let shift = [3.0, -3.0, 0.5, -1.25][(i + ci) % 4];
+            let (q, _) = gen_generic(&mut gi, nvars, shift, g.next());
+            let beta = [0.5, 1.0, 2.0, 4.0][i % 4];
+            tc.add_qmc_stepper(q, beta).unwrap();
+            betas.push(beta);
+        }
+        tc.timesteps(g.range(0, 8) as usize);
+        let mut tc2 = tc.clone();
+        let r = if parallel { tc.parallel_timesteps_sample(t, s, f) } else { tc.timesteps_sample(t, s, f) };
+        let offs: Vec<f64> = tc2.graph_ref().iter().map(|(q, _)| q.get_offset()).collect();
+        let mut nseq: Vec<Vec<usize>> = vec![vec![]; nrep];
+        let mut want: Vec<Vec<Vec<bool>>> = vec![vec![]; nrep];
+        for k in 1..=t {
+            // one `timestep` per replica (not `timesteps(1)`, which goes through the energy helper under test)
+            for (q, beta) in tc2.graph_mut().iter_mut() {
+                q.timestep(*beta);
+            }
+            for i in 0..nrep {
+                nseq[i].push(tc2.graph_ref()[i].0.get_n());
+            }
+            if k % s == 0 {
+                tc2.tempering_step();
+            }
+            if k % f == 0 {
+                for i in 0..nrep {
+                    want[i].push(tc2.graph_ref()[i].0.state_ref().to_vec());
+                }
+            }
+        }
+        let mut oracle = Ok(());
+        for i in 0..nrep {
+            if r[i].0 != want[i] {
+                oracle = Err(format!("generic replicas: slot {} sampled states differ from the single-step process", i));
+            }
+            let doc = nseq[i].iter().map(|n| -(*n as f64 / betas[i]) + offs[i]).sum::<f64>() / t as f64;
+            if !close(r[i].1, doc) {
+                oracle = Err(format!(
+                    "generic replicas: slot {} (offset {}) energy {} but the per-step average of -n/beta + get_offset() is {}",
+                    i, offs[i], r[i].1, doc
+                ));
+            }
+        }
+        let input = format!(
+            "generict {} {} {} {} {} {} {}",
+            t,
+            s,
+            f,
+            nrep,
+            rats(&betas),
+            rats(&offs),
+            nseq.iter().map(|v| list(v).replace(',', ".")).collect::<Vec<_>>().join(",")
+        );
+        let out = r.iter().map(|x| format!("{} {}", x.0.len(), fl(x.1))).collect::<Vec<_>>().join(" ");
+        emit(true, &input, &out, Some(oracle));
+        stat("generic_swaps_accepted", tc.get_total_swaps());
+    }
+    stat("generic_offset_positive", npos);
+    stat("generic_offset_negative", nneg);
+}
+
+// ------------------------------------------------------------------------------------------------
 // imaginary-time fold
 // ------------------------------------------------------------------------------------------------
 
@@ -943,6 +1138,9 @@ fn main() {
     }
     if all || a.mode == "ising" {
         mode_ising(&a);
+    }
+    if all || a.mode == "generic" {
+        mode_generic(&a);
     }
     if all || a.mode == "itime" {
         mode_itime(&a);
